@@ -361,3 +361,21 @@ PROPS["C01"] = dict(
     assumptions=["numbering-independence is compared for renumberings that keep every parent list ascending (the statement fixes ascending parent order); data outputs are compared as a multiset",
                  "edge targets in range; edges to non-existent nodes are reproduced by the model and compared, not part of the refinement theorem"],
 )
+
+PROPS["C02"] = dict(
+    modules=["Essential.Props.C02"],
+    gen=gen_check.c02_cases,
+    model_is_spec=True, abort_is_violation=True,
+    nontrivial=lambda body, out: out.startswith("ok") or out.startswith("err") or out.startswith("some") or out.startswith("none"),
+    exhaustive=None,
+    rule="cases: two-pass checks with 1..8 solutions and graph levels of 2..8 nodes whose programs spin 0..12000 iterations "
+         "before they fail / end 0 / report a data output / feed a join (slow tasks at the low indices), Compute ops of breadth "
+         "2..8 whose children spin (breadth - index) x 2500 iterations and then halt early, run to ComputeEnd, fail, jump or "
+         "leave index-dependent memory, plus samples of the C01, C03 and C10 inputs; each case is (a) run on model (sequential by "
+         "construction) and code and compared, (b) o_pool: re-run on the code inside dedicated rayon pools of 1, 2, 5, 16 "
+         "(thorough: 1..16) workers, 2 (4) repetitions with state-read jitter, every result compared with the one-worker run; "
+         "non-trivial = distinct case returning a value or typed error",
+    trusted=CHECK_TRUSTED + ["rayon: tasks are pure closures over immutable snapshots; indexed collect / partition / Result-collect place results by index (what Model/Sched.lean assumes)"],
+    assumptions=["the inner error of a failing Compute child is not part of the compared result (rayon leaves open which child's error is kept; the VM reports Compute.Exec either way)",
+                 "real work-stealing interleavings are sampled (pool sizes x repetitions x jitter), not enumerated"],
+)
